@@ -66,7 +66,7 @@ def main():
     npoints = probe["points_seen"]
     jobs = []
     idx = 1
-    base = [(k, kind) for k in range(1, npoints + 1) for kind in ("in-lock", "after-unlock")]
+    base = [(k, "any") for k in range(1, npoints + 1)]
     for k, kind in base:                                   # every point, simplest scenario
         jobs.append((bld, k, kind, 1, "file", 0, root, idx)); idx += 1
     outs = ["file", "devlog", "socket", "stdout"]
@@ -92,10 +92,15 @@ def main():
             log("[C10] inconclusive scenario: %s" % (ev,))
             continue
         if ev["parked"] < 1:
-            tot["not_parked"] += 1          # this (k, kind) pair does not exist (the k-th point is of the other kind)
+            tot["not_parked"] += 1
             continue
         tot["valid"] += 1
-        tot["in_lock" if ev["stop_kind"] == "in-lock" else "after_unlock"] += 1
+        kind_ = ev["stop_kind"]
+        if kind_.startswith("io:"):
+            tot["at_io"] = tot.get("at_io", 0) + 1
+            tot.setdefault("_io_kinds", set()).add(kind_)
+        else:
+            tot["in_lock" if kind_ == "in-lock" else "after_unlock"] += 1
         wit = {k: v for k, v in ev.items() if k != "records"}
         wit["records"] = ev["records"][:6]
         desc = "victims=%d stopped %s at point %d, output=%s, child variant %d" % (ev["victims"], ev["stop_kind"], ev["stop_at"], ev["out"], ev["child_kind"])
@@ -103,7 +108,7 @@ def main():
             samples.append(dict(scenario=desc, child_done=ev["child_done"], victims_done=ev["victims_done"]))
         if not ev["child_done"]:
             if ev["child_blocked_samples"] >= 3:
-                F.violation("C10:child-deadlock:%s" % ev["stop_kind"], "child of fork never finished its exec call: blocked in syscall %s (%s)" % (ev["child_syscall"][:40], desc), wit)
+                F.violation("C10:child-deadlock:%s" % ev["stop_kind"].replace("io:", "at-io-"), "child of fork never finished its exec call: blocked in syscall %s (%s)" % (ev["child_syscall"][:40], desc), wit)
             else:
                 tot["inconclusive"] += 1
             continue
@@ -122,14 +127,16 @@ def main():
             F.violation("C10:parent-thread-stuck", "%d of %d parent threads finished after the fork (%s)" % (ev["victims_done"], ev["victims"], desc), wit)
         if ev["problem"]:
             F.violation("C10:" + ev["problem"].split(":")[0], "%s (%s)" % (ev["problem"], desc), wit)
-    if (tot["in_lock"] == 0 or tot["after_unlock"] == 0) and F.n_unlisted() == 0:
+    if (tot["in_lock"] == 0 or tot["after_unlock"] == 0 or tot.get("at_io", 0) == 0) and F.n_unlisted() == 0:
         raise Harness("fork points not reached: %s" % tot)
     if (tot["inconclusive"] > max(2, tot["scenarios"] // 50)) and F.n_unlisted() == 0:
         raise Harness("too many inconclusive scenarios: %s" % tot)
+    io_kinds = sorted(tot.pop("_io_kinds", set()))
+    tot["io_stop_kinds"] = io_kinds
     rc = F.report()
     write_evidence(PROP, "fault_enumeration", tr, dict(
         evaluations=tot["valid"], distinct_nontrivial=tot["valid"],
-        rule="one scenario per (stop point k of %d in one wrapped call, in-lock | after-unlock) with 1 victim/file output/direct exec, plus sampled (k, kind) x victims 1..3 x output {file,devlog,socket,stdout} x child {exec, fork-again-then-exec, exec from a new thread}; a scenario counts only if the victim really parked there" % npoints,
+        rule="one scenario per stop point k of %d in one wrapped call (right after each lock acquisition, right after each unlock, right before each open/write/close/socket/send/flock/fopen/fclose the library issues) with 1 victim/file output/direct exec, plus sampled (k, kind) x victims 1..3 x output {file,devlog,socket,stdout} x child {exec, fork-again-then-exec, exec from a new thread}; a scenario counts only if the victim really parked there" % npoints,
         samples=samples, stop_points_per_call=npoints, monitor_events=tot,
         build=dict(variant="plain", treehash=bld.treehash), violation_keys=sorted(F.viol)),
         time.time() - t0, F.n_unlisted(),
